@@ -269,7 +269,7 @@ func main() {
 		Ours:   []rmkit.Op{{Kind: "ins", Key: 2, Row: []rmkit.Val{rmkit.IntV(5)}}},
 		Theirs: []rmkit.Op{{Kind: "ins", Key: 3, Row: []rmkit.Val{rmkit.IntV(7)}}}, Resolve: "none"})
 	root := hx.NewRng(e.Seed*0xD6E8FEB86659FD93 ^ e.Rng.U64())
-	n := e.N(70, 1200)
+	n := e.N(70, 600)
 	for i := 0; i < n; i++ {
 		rng := root.Fork()
 		o := rmkit.GenOpts{SchemaChange: 1, MaxKeys: 8}
